@@ -6,8 +6,65 @@ re-checked against what `/repo/odl/discr/diff_ops.py` says on every run.
 -/
 import OdlModel.Model.FiniteDiff
 import OdlModel.Gen.FiniteDiff
+import OdlModel.Lemmas.FiniteDiff
+import Mathlib.Tactic.FieldSimp
+import Mathlib.Algebra.CharZero.Defs
 
-open OdlModel.FiniteDiff OdlModel.Gen.FiniteDiff
+open OdlModel.FiniteDiff OdlModel.Gen.FiniteDiff Finset
+
+/-! ### Reference definitions (the specification side) -/
+
+namespace OdlModel.C13
+
+/-- smallest admissible axis length of a pad mode -/
+def nMin : Pad → Nat
+  | .order2 => 3 | .order2Adj => 3 | _ => 2
+
+section
+variable {K : Type} [Field K]
+
+/-- the value the named boundary rule puts in front of `f[0]` -/
+def ghostL (p : Pad) (c : K) (f : Nat → K) : K :=
+  match p with
+  | .constant => c
+  | .symmetric => f 0
+  | .order0 => f 0
+  | .order1 => 2 * f 0 - f 1
+  | .order2 => 3 * f 0 - 3 * f 1 + f 2
+  | _ => 0
+/-- the value the named boundary rule puts behind `f[n-1]` -/
+def ghostR (p : Pad) (n : Nat) (c : K) (f : Nat → K) : K :=
+  match p with
+  | .constant => c
+  | .symmetric => f (n - 1)
+  | .order0 => f (n - 1)
+  | .order1 => 2 * f (n - 1) - f (n - 2)
+  | .order2 => 3 * f (n - 1) - 3 * f (n - 2) + f (n - 3)
+  | _ => 0
+/-- `f` extended by one ghost cell on each side (`np.pad(f, 1, mode)`); entry `k+1` is `f[k]`.
+Periodic is stated separately (its ghosts are `f[n-1]`, `f[0]`). -/
+def padded (p : Pad) (n : Nat) (c : K) (f : Nat → K) : Nat → K := fun k =>
+  if k = 0 then (if p = .periodic then f (n - 1) else ghostL p c f)
+  else if k = n + 1 then (if p = .periodic then f 0 else ghostR p n c f)
+  else f (k - 1)
+/-- textbook difference stencils, row `i` of the padded array `E` (shifted by one) -/
+def stencil (m : Method) (E : Nat → K) (i : Nat) : K :=
+  match m with
+  | .forward => E (i + 2) - E (i + 1)
+  | .backward => E (i + 1) - E i
+  | .central => (E (i + 2) - E i) / 2
+end
+
+def stencilCase (m : Method) (p : Pad) : Bool :=
+  match p with
+  | .constant | .symmetric | .periodic | .order0 | .order1 => true
+  | .order2 => m == .central
+  | _ => false
+
+end OdlModel.C13
+open OdlModel.C13
+
+/-! ### Tables -/
 
 /-- `_ADJ_METHOD` and `_ADJ_PADDING` are involutions, and every method / pad mode is in the
 supported lists (so the adjoint of an adjoint is the operator's own configuration). -/
@@ -15,3 +72,83 @@ theorem C13.adj_involutive :
     (∀ m : Method, adjMethod (adjMethod m) = m) ∧ (∀ p : Pad, adjPad (adjPad p) = p) ∧
     (∀ m : Method, m ∈ methods) ∧ (∀ p : Pad, p ∈ pads) := by
   refine ⟨?_, ?_, ?_, ?_⟩ <;> intro x <;> cases x <;> decide
+
+/-- Smallest admissible axis length: `finite_diff` runs without raising (neither its own
+`ValueError` guards nor an `IndexError` from a boundary statement) exactly for `n ≥ 2`, and
+`n ≥ 3` for `order2` / `order2_adjoint`.  All theorems below hold down to that size. -/
+theorem C13.size_ok_iff (m : Method) (p : Pad) (n : Nat) :
+    sizeCheck guards (tbl m p) p n = none ↔ nMin p ≤ n := by
+  cases m <;> cases p <;>
+    simp [sizeCheck, guards, tbl, Table.need, Table.corners, Corner.need, nMin] <;>
+    split_ifs <;> simp <;> omega
+
+
+/-! ### Stencils -/
+
+/-- For every method and every non-adjoint pad mode whose rule is an extension of the array
+(`constant` with any `pad_const`, `symmetric`, `periodic`, `order0`, `order1`; `order2` with
+`central`), every axis length `n ≥ n_min`, every input, every `dx`: row `i` of what
+`finite_diff` computes (interior band, boundary statements in program order, `/= dx`) is the
+textbook stencil of the method applied to the array extended by one ghost cell per side. -/
+theorem C13.fd_eq_stencil_ext {K : Type} [Field K] [CharZero K] (m : Method) (p : Pad)
+    (hp : stencilCase m p = true) (n : Nat) (hn : nMin p ≤ n) (c dx : K) (f : Nat → K)
+    (i : Nat) (hi : i < n) :
+    fd den (tbl m p) n c dx f i = stencil m (padded p n c f) i / dx := by
+  have h2 : 2 ≤ n := by cases p <;> simp [nMin] at hn <;> omega
+  have h2K : (2 : K) ≠ 0 := by
+    have := (Nat.cast_injective (R := K)).ne (show (2 : ℕ) ≠ 0 by decide)
+    exact_mod_cast this
+  unfold fd
+  rw [fdNum_closed _ n h2 c f i]
+  obtain ⟨k, rfl⟩ : ∃ k, n = k + 2 := ⟨n - 2, by omega⟩
+  by_cases hdx : dx = 0
+  · simp [hdx]
+  rcases (show i = 0 ∨ i = k + 1 ∨ (1 ≤ i ∧ i ≤ k) by omega) with rfl | rfl | ⟨ha, hb⟩
+  · cases m <;> cases p <;> simp [stencilCase] at hp <;>
+      simp [tbl, accSum, evalTerms, evalTerm, interior, padded, stencil, ghostL, ghostR, den,
+        Corner.pos] <;> field_simp <;> ring
+  · cases m <;> cases p <;> simp [stencilCase] at hp <;>
+      simp [tbl, accSum, evalTerms, evalTerm, interior, padded, stencil, ghostL, ghostR, den,
+        Corner.pos] <;> field_simp <;> ring
+  · have e1 : i ≠ 0 := by omega
+    have e2 : i ≠ k + 1 := by omega
+    have e3 : i + 2 ≤ k + 2 := by omega
+    have e4 : ¬ (i + 1 = k + 2) := by omega
+    have e5 : ¬ (i = k + 3) := by omega
+    have e6 : ¬ (i = k + 2 + 1) := by omega
+    have e7 : ¬ (i = k + 2) := by omega
+    cases m <;> cases p <;> simp [stencilCase] at hp <;>
+      simp [tbl, accSum, evalTerms, evalTerm, interior, padded, stencil, ghostL, ghostR, den,
+        Corner.pos, e1, e2, e3, e4, e5, e6, e7, ha] <;> field_simp <;> ring
+
+example : fd den (tbl .central .order1) 2 0 (1 : ℚ) (fun i => (i : ℚ) * 3) 1
+    = stencil .central (padded .order1 2 0 (fun i => (i : ℚ) * 3)) 1 / 1 :=
+  C13.fd_eq_stencil_ext .central .order1 rfl 2 (by decide) 0 1 _ 1 (by decide)
+
+/-! ### Adjoints -/
+
+/-- For each of the 30 `(method, pad_mode)` leaves, the leaf the code selects for the adjoint
+(`_ADJ_METHOD`, `_ADJ_PADDING`) passes the verified corner checker: bands are minus-reversed
+and the bilinear corner form left by summation by parts cancels formally. -/
+theorem C13.adj_tables_transposed (m : Method) (p : Pad) :
+    adjOK (tbl m p) (tbl (adjMethod m) (adjPad p)) = true := by
+  cases m <;> cases p <;> decide
+
+
+/-- The operator the code returns as adjoint is exactly minus the transpose, for every
+method, every pad mode (adjoint modes included), EVERY axis length on which both run, all
+inputs: `Σᵢ gᵢ·(D f)ᵢ = − Σⱼ fⱼ·(D' g)ⱼ` with `D' = finite_diff(_ADJ_METHOD[m],
+_ADJ_PADDING[p])`; the sign is the `-` in `PartialDerivative.adjoint`. -/
+theorem C13.fd_adjoint_transpose {K : Type} [Field K] (m : Method) (p : Pad) (n : Nat)
+    (h : sizeCheck guards (tbl m p) p n = none)
+    (h' : sizeCheck guards (tbl (adjMethod m) (adjPad p)) (adjPad p) n = none)
+    (dx : K) (f g : Nat → K) :
+    ∑ i ∈ range n, g i * fd den (tbl m p) n 0 dx f i
+      = - ∑ j ∈ range n, f j * fd den (tbl (adjMethod m) (adjPad p)) n 0 dx g j := by
+  have hn := sizeCheck_none h
+  have hn' := sizeCheck_none h'
+  obtain ⟨k, rfl⟩ : ∃ k, n = k + 2 := ⟨n - 2, by have := (tbl m p).two_le_need; omega⟩
+  have key := pair_adjoint (K := K) _ _ (C13.adj_tables_transposed m p) k f g
+    ((tbl m p).accs_fit hn) ((tbl _ _).accs_fit hn')
+  simp only [fd, div_eq_mul_inv, ← mul_assoc, ← Finset.sum_mul]
+  rw [eq_neg_iff_add_eq_zero, ← add_mul, key, zero_mul]
